@@ -480,9 +480,8 @@ impl S22ServerReader {
                 if pad > MAX_PADDING {
                     return spec(format!("padding {pad} > 900"));
                 }
-                if pad == 0 && payload.is_empty() {
-                    return spec("request has neither initial payload nor padding");
-                }
+                // SIP022 asks clients to pad a request without payload; deployed clients (shadowsocks-rust) draw the
+                // padding length from 0..=900, so a zero draw is not treated as a violation here
             }
             self.addr = Some(a);
             self.padding_len = Some(pad);
